@@ -238,7 +238,7 @@ def job_presets(ctx: Ctx, presets, atnums, method):
             else:
                 n_ok += 1
     ctx.paths += n_ok + len(bad)
-    for preset, atnum, what in bad[:6]:
+    for preset, atnum, what in bad[:12]:
         def replay(m, preset=preset, atnum=atnum):
             with unpatched(an, ag, bg, ut):
                 cc = np.array([0.3, -0.7, 1.1])
@@ -249,7 +249,7 @@ def job_presets(ctx: Ctx, presets, atnums, method):
                     return True, dict(raised=str(ex))
                 return True, dict(preset=preset, atnum=atnum, centre_received=None if cap["center"] is None else np.asarray(cap["center"], float).tolist(), method_received=cap["method"],
                                   degrees=None if cap["degrees"] is None else [int(v) for v in cap["degrees"]])
-        ctx.fail(f"from_preset({atnum}, {preset!r}, method={method!r}): {what}", detail=what, key=key, replay=replay, model={})
+        ctx.fail(f"from_preset({atnum}, {preset!r}, method={method!r}): {what}", detail=what, key=f"from_preset:{preset}:Z={atnum}", replay=replay, model={})
     ctx.ok(f"{n_ok} (preset, element) pairs hand centre (symbolic), rotation seed and method on to the constructor and request per-shell degrees/sizes not coarser than tabulated", how="path")
     ctx.twins_sat += 1
 
